@@ -12,6 +12,7 @@ import (
 	"fmt"
 	"os"
 
+	"gitlab.com/gomidi/midi/v2"
 	"gitlab.com/gomidi/midi/v2/internal/utils"
 	cc "gitlab.com/gomidi/midi/v2/internal/verifh/conccases"
 	cp "gitlab.com/gomidi/midi/v2/internal/verifh/concpairs"
@@ -440,7 +441,7 @@ func main() {
 			}
 		})
 	})
-	ctx.Jobs("writefile", 1, func(int) { writeFile(); twoWriters(); oddValues() })
+	ctx.Jobs("writefile", 1, func(int) { writeFile(); twoWriters(); oddValues(); sizeOnError() })
 	const parts = 32
 	ctx.Jobs("vlq", parts, func(j int) {
 		step := uint64(1<<28) / parts
@@ -471,9 +472,78 @@ func main() {
 	ctx.Finish("explicit-state BFS over API histories (as C01); in every state the output is parsed by the strict reference parser and compared with the reference value, size and second-write determinism checked; non-trivial = outputs shorter than the plain encoding (running status elided); plus all 2^28 VLQ values")
 }
 
+// sizeOnError: WriteTo is an io.WriterTo - the size it reports is the number
+// of bytes the destination has taken, also when the destination fails part way
+// (inside the header, inside a track chunk, at a chunk boundary).
+func sizeOnError() {
+	al := sp.FullAlphabet()
+	big := make([]byte, 5000)
+	for i := range big {
+		big[i] = byte(i) & 0x7F
+	}
+	alb := append(append([]sp.Msg{}, al...), sp.Msg{Name: "SysEx5000", Bytes: midi.SysEx(big)})
+	mk := func(tracks, n int, withBig bool) *sp.Inst {
+		var ops []sp.Op
+		for t := 0; t < tracks; t++ {
+			for i := 0; i < n; i++ {
+				ops = append(ops, sp.Op{Kind: sp.OpAdd, D: uint32(i % 3 * 100), M1: (i + t) % len(al)})
+			}
+			if withBig && t == 0 {
+				ops = append(ops, sp.Op{Kind: sp.OpAdd, D: 1, M1: len(al)})
+			}
+			ops = append(ops, sp.Op{Kind: sp.OpSMFAdd})
+		}
+		return sp.Build(sp.Cfg{Ctor: 0, TF: smf.MetricTicks(96)}, alb, ops)
+	}
+	for vi, v := range []struct {
+		tracks, n int
+		big       bool
+	}{{1, 0, false}, {1, 3, false}, {2, 20, false}, {3, 1, false}, {1, 150, false}, {2, 2, true}} {
+		base := mk(v.tracks, v.n, v.big)
+		var ok bytes.Buffer
+		if _, err := base.Clone().S.WriteTo(&ok); err != nil {
+			ctx.Guard(false, "size-on-error: value %d cannot be written: %v", vi, err)
+			continue
+		}
+		for _, mode := range []string{"short", "call", "full", "once-short", "once-full"} {
+			limit := ok.Len() + 1
+			if mode[0] == 'o' {
+				limit = 8 // the number of the failing Write call
+			}
+			for k := 0; k <= limit; k++ {
+				fw := &faultio.FailWriter{At: k, Mode: mode}
+				var n int64
+				var err error
+				in := base.Clone()
+				c := engine.Catch(func() { n, err = in.S.WriteTo(fw) })
+				ctx.Eval()
+				ctx.Add("size_on_error_cases", 1)
+				sig, what := "", ""
+				switch {
+				case c.Panicked:
+					sig, what = c.Sig+":size-on-error", "WriteTo panicked: "+c.Value
+				case n != int64(len(fw.Got)):
+					where := "track-data"
+					if len(fw.Got) < 14 {
+						where = "header"
+					}
+					sig = "size:failing-destination:" + where + ":" + mode
+					what = fmt.Sprintf("the destination took %d bytes (fault at %d, mode %s, error %v), WriteTo reports %d", len(fw.Got), k, mode, err, n)
+				}
+				if sig != "" && ctx.SigCount(sig) < 5 {
+					ctx.Violation(sig, map[string]interface{}{"kind": "size-on-error", "value": vi, "fault_at": k, "mode": mode, "what": what})
+				}
+			}
+		}
+	}
+}
+
 func replay() {
 	m := ctx.LoadReplay()
 	switch m["kind"] {
+	case "size-on-error":
+		sizeOnError()
+		ctx.Finish("replay")
 	case "vlq":
 		n := uint64(m["value"].(float64))
 		vlqRange(n, n+1)
